@@ -15,6 +15,7 @@ import (
 	"os/exec"
 	"path"
 	"path/filepath"
+	"regexp"
 	"runtime"
 	"sort"
 	"strconv"
@@ -36,9 +37,15 @@ func init() {
 	register("c18", "C18 extract: run the real extractor on std and random packages, compare with go/types and compile the output", runC18)
 }
 
+var c18LongNumber = regexp.MustCompile(`CFloat \(?-?[0-9]{200,}|CFloat \(?-?[0-9]+\)? [0-9]{200,}`)
+
 var c18BaselineRestricted = map[string]bool{"osExit": true, "osFindProcess": true, "logDefault": true, "logFatal": true, "logFatalf": true, "logFatalln": true, "logLogger": true, "logNew": true}
 
-var c18Always = []string{"math", "os", "log", "io", "fmt", "sort", "net/http", "strings", "time", "go/token", "context", "database/sql/driver", "log/syslog", "io/fs", "encoding/json", "reflect", "math/big", "go/constant"}
+// always checked: float constants (math), the sandboxed symbols (os, log), interfaces with variadic methods, embedded
+// interfaces and unexported methods (io, fmt, sort, context, io/fs, database/sql/driver, go/constant, reflect), many constants (go/token, time)
+var c18Always = []string{"math", "os", "log", "io", "fmt", "sort", "strings", "time", "go/token", "context", "database/sql/driver", "io/fs", "go/constant", "reflect"}
+
+const c18Rotating = 10 // further standard packages per quick run, drawn by the seed
 
 type c18Job struct {
 	ID       int
@@ -59,6 +66,7 @@ type c18Job struct {
 	err      error
 	view     *c18Pkg
 	viewCoq  string
+	viewKeep string
 	refCoq   string
 	obsCoq   [2]string // rendered with compile verdict false / true
 	declKeys []string
@@ -194,10 +202,12 @@ func runC18(args []string) error {
 				rest = append(rest, p)
 			}
 		}
-		// rotate by seed: 24 more packages
-		off := int(*seed*24) % len(rest)
-		for i := 0; i < 24; i++ {
-			sel[rest[(off+i)%len(rest)]] = true
+		// drawn by the seed (every importable package is reached over the seeds; the thorough tier takes all)
+		rs := r.fork()
+		for i := 0; i < c18Rotating && len(rest) > 0; i++ {
+			k := rs.intn(len(rest))
+			sel[rest[k]] = true
+			rest = append(rest[:k], rest[k+1:]...)
 		}
 		stdSel = sortedKeys(sel)
 	}
@@ -206,7 +216,7 @@ func runC18(args []string) error {
 	}
 
 	// ---------------------------------------------------------------- B. random packages
-	nMain, nRegion := 90, 3
+	nMain, nRegion := 120, 3
 	if *tier == "thorough" {
 		nMain, nRegion = 2000, 25
 	}
@@ -233,6 +243,15 @@ func runC18(args []string) error {
 		if err := os.WriteFile(filepath.Join(d, "p.go"), []byte(rp.Source), 0o644); err != nil {
 			return err
 		}
+		for sd, ssrc := range rp.Extra {
+			sdir := filepath.Join(srcRoot, filepath.FromSlash(sd))
+			if err := os.MkdirAll(sdir, 0o755); err != nil {
+				return err
+			}
+			if err := os.WriteFile(filepath.Join(sdir, "p.go"), []byte(ssrc), 0o644); err != nil {
+				return err
+			}
+		}
 		newJob(&c18Job{Kind: "rand", IPath: "vt/" + rp.Dir, Dest: "out", Region: rp.Region, Rand: rp})
 		for k, n := range rp.Kinds {
 			sm.Distribution["decl:"+k] += n
@@ -246,12 +265,30 @@ func runC18(args []string) error {
 		fmt.Fprintf(os.Stderr, "c18: %s %.1fs\n", name, time.Since(tPhase).Seconds())
 		tPhase = time.Now()
 	}
-	parallelMap(len(jobs), 0, func(i int) {
-		j := jobs[i]
-		t0 := time.Now()
-		c18RunOne(j, minor, restricted, string(restrictedGo))
-		j.dur = time.Since(t0)
-	})
+	{
+		// one source importer per worker (not safe for concurrent use), shared by the reference view and by the
+		// type-check of the generated file; renewed now and then to bound memory. The extractor under test
+		// always creates its own.
+		var wg sync.WaitGroup
+		ch := make(chan *c18Job)
+		for w := 0; w < runtime.NumCPU(); w++ {
+			wg.Add(1)
+			go func() {
+				defer wg.Done()
+				wk := &c18Worker{}
+				for j := range ch {
+					t0 := time.Now()
+					c18RunOne(j, minor, restricted, string(restrictedGo), wk)
+					j.dur = time.Since(t0)
+				}
+			}()
+		}
+		for _, j := range jobs {
+			ch <- j
+		}
+		close(ch)
+		wg.Wait()
+	}
 	for _, j := range jobs {
 		if j.err != nil {
 			return fmt.Errorf("case %d (%s): %w", j.ID, j.IPath, j.err)
@@ -338,8 +375,10 @@ func runC18(args []string) error {
 			oc = j.obsCoq[1]
 		}
 		j.coq = fmt.Sprintf("(%d%%N,\n %s,\n %s,\n %s)", j.ID, j.viewCoq, oc, j.refCoq)
+		j.viewKeep = j.viewCoq
 		j.viewCoq, j.refCoq, j.obsCoq, j.declKeys = "", "", [2]string{}, nil
-		entries = append(entries, entry{j.coq, len(j.coq)})
+		// cost inside Coq: the text, plus the long-precision arithmetic behind float constants with hundreds of digits
+		entries = append(entries, entry{j.coq, len(j.coq) + 150000*len(c18LongNumber.FindAllStringIndex(j.viewKeep, -1))})
 	}
 	sort.SliceStable(entries, func(a, b int) bool { return entries[a].size > entries[b].size })
 	nb, total := 16, 0
@@ -376,7 +415,7 @@ func runC18(args []string) error {
 	}
 	sm.DistinctNontriv = len(distinct)
 	sm.Exhaustive = *tier == "thorough"
-	sm.Rule = "packages: standard library of the installed toolchain (quick: 18 fixed + 24 rotating by seed; thorough: every importable std package) and seeded random packages " +
+	sm.Rule = "packages: standard library of the installed toolchain (quick: 14 fixed + 10 drawn by the seed; thorough: every importable std package) and seeded random packages (with sibling packages; interfaces embedding interfaces of other packages at depth 1-3; constant values sweeping the printing boundaries of go/constant) " +
 		"(every declaration kind of genContent's switch; region packages with one known defect shape each); each package = one case: the real extractor's output is read back into rows, " +
 		"compared with model Y (all rows, imports, build tag, compile verdict), with the go/types reference (names, forms, bound objects, exact constant values, wrapper signatures, Implements) and compiled by go/types and go build; " +
 		"evaluations = bound rows + wrapper methods + 1 per package; distinct = distinct (import path, exported declaration) pairs"
@@ -427,7 +466,23 @@ func c18GoBuild(gopath string) (map[string]string, string, error) {
 
 var c18ImportMu sync.Mutex // cgo preprocessing inside the source importer writes temp files; keep it simple and race-free
 
-func c18RunOne(j *c18Job, minor int, restricted map[string]bool, restrictedGo string) {
+type c18Worker struct {
+	fset *token.FileSet
+	imp  types.Importer
+	n    int
+}
+
+func (w *c18Worker) importer() (*token.FileSet, types.Importer) {
+	if w.imp == nil || w.n >= 40 {
+		w.fset = token.NewFileSet()
+		w.imp = importer.ForCompiler(w.fset, "source", nil)
+		w.n = 0
+	}
+	w.n++
+	return w.fset, w.imp
+}
+
+func c18RunOne(j *c18Job, minor int, restricted map[string]bool, restrictedGo string, wk *c18Worker) {
 	// ---- implementation
 	var buf bytes.Buffer
 	e := extract.Extractor{Dest: j.Dest}
@@ -449,8 +504,7 @@ func c18RunOne(j *c18Job, minor int, restricted map[string]bool, restrictedGo st
 	}
 
 	// ---- reference view
-	fset := token.NewFileSet()
-	imp := importer.ForCompiler(fset, "source", nil)
+	fset, imp := wk.importer()
 	refPkg, err := imp.Import(j.IPath)
 	if err != nil {
 		j.err = fmt.Errorf("reference import: %w", err)
@@ -509,6 +563,9 @@ func c18RunOne(j *c18Job, minor int, restricted map[string]bool, restrictedGo st
 		j.diffs = c18Compare(view, ref, obs, info, outPkg, restricted)
 	} else {
 		j.diffs = c18Compare(view, ref, obs, nil, nil, restricted)
+	}
+	if miss := c18MissingImports(f1, imp); len(miss) > 0 {
+		j.diffs = append(j.diffs, c18Diff{"(imports)", "", "the generated declarations mention packages the file does not import", strings.Join(miss, ","), "imported"})
 	}
 	// build tag: the file must be selected by the installed toolchain; map key = importPath/pkgName
 	if obs.Tags != "" {
